@@ -709,3 +709,220 @@ Proof.
 Qed.
 
 End Tables.
+
+(* ====================================================================================== *)
+(* The code in /repo today: the regenerated tables.  [uuid_tables_ok] (recomputed from the  *)
+(* record and assign hooks on every run) says both phases visit the same references.        *)
+(* ====================================================================================== *)
+Notation R := uuid_action_record.
+Notation Rc := uuid_case_record.
+
+Lemma validate_eq st : validate st = validate_g R Rc R Rc st.
+Proof. unfold validate. destruct uuid_tables_same as [<- <-]. reflexivity. Qed.
+
+Lemma occs_eq c : occs c = occs_g R Rc c.
+Proof. unfold occs. destruct uuid_tables_same as [<- <-]. reflexivity. Qed.
+
+Lemma dict_wf_empty : dict_wf empty_udict.
+Proof. intros k. destruct k; constructor. Qed.
+
+Lemma flows_have_uuid_b c : forallb (fun f => truthy (f_uuid f)) (flows c) = true -> flows_have_uuid c.
+Proof. intros H f Hf. rewrite forallb_forall in H. apply (H f Hf). Qed.
+
+(* ---- 1 ---- *)
+Definition one_name_one_uuid_at (st : state) : Prop :=
+  (forall k n u, In (k, (n, u)) (occs (st_c st)) -> truthy u = true /\ dget (sel k (st_d st)) n = Some u)
+  /\ (forall k n u1 u2, In (k, (n, u1)) (occs (st_c st)) -> In (k, (n, u2)) (occs (st_c st)) -> u1 = u2)
+  /\ (forall n u, In (KGroup, (n, u)) (occs (st_c st)) -> count_occ name_dec (map fst (groups (st_c st))) n = 1)
+  /\ (forall f u, In f (flows (st_c st)) -> In (KFlow, (f_name f, u)) (occs (st_c st)) -> u = f_uuid f).
+
+Lemma one_name_one_uuid st st' : dict_wf (st_d st) -> flows_have_uuid (st_c st) -> validate st = Ok st' ->
+  one_name_one_uuid_at st'.
+Proof.
+  intros Hwf Hfl H. rewrite validate_eq in H. unfold one_name_one_uuid_at.
+  pose proof (validate_consistent R Rc _ _ Hwf Hfl H) as Hc.
+  split; [|split; [|split]].
+  - intros k n u H0. rewrite occs_eq in H0. apply (Hc _ _ _ H0).
+  - intros k n u1 u2 H1 H2. rewrite occs_eq in H1, H2. apply (consistent_pairwise R Rc _ _ _ _ _ Hc H1 H2).
+  - intros n u H1. rewrite occs_eq in H1. apply (validate_groups_once R Rc _ _ _ _ Hwf H H1).
+  - intros f u Hf H1. rewrite occs_eq in H1. apply (consistent_pairwise R Rc _ _ _ _ _ Hc H1).
+    unfold occs_g. rewrite !in_app_iff. right. left. apply in_map_iff. exists f. auto.
+Qed.
+
+(* ---- 2 ---- *)
+Definition explicit_source (st : state) (k : kind) (n : name) (u : pyuuid) : Prop :=
+  In (k, (n, u)) (occs (st_c st)) \/ dget (sel k (st_d st)) n = Some u.
+
+Lemma source_eq st k n u : explicit_source st k n u <-> source R Rc st k n u.
+Proof. unfold explicit_source, source. rewrite occs_eq. tauto. Qed.
+
+Lemma explicit_wins st st' k n u : dict_wf (st_d st) -> flows_have_uuid (st_c st) -> validate st = Ok st' ->
+  truthy u = true -> explicit_source st k n u ->
+  dget (sel k (st_d st')) n = Some u /\ forall u', In (k, (n, u')) (occs (st_c st')) -> u' = u.
+Proof.
+  intros Hwf Hfl H Ht Hs. rewrite validate_eq in H. apply source_eq in Hs. split.
+  - apply (validate_binds R Rc _ _ _ _ _ H Ht Hs).
+  - intros u' Hin. rewrite occs_eq in Hin. apply (explicit_wins_S R Rc _ _ _ _ _ Hwf Hfl H Ht Hs _ Hin).
+Qed.
+
+(* ---- 3 ---- *)
+Lemma conflict_rejected st k n u1 u2 : truthy u1 = true -> truthy u2 = true -> u1 <> u2 ->
+  explicit_source st k n u1 -> explicit_source st k n u2 ->
+  validate st = Err EConflict \/ validate st = Err EUnknownFlow.
+Proof.
+  intros T1 T2 Hne S1 S2. apply source_eq in S1, S2. rewrite validate_eq.
+  destruct (conflict_rejected_S R Rc _ _ _ _ _ T1 T2 Hne S1 S2) as (e & He & [->| ->]); auto.
+Qed.
+
+Definition flow_known_now : state -> name -> bool := flow_known R Rc.
+
+Lemma conflict_rejected_exact st k n u1 u2 : truthy u1 = true -> truthy u2 = true -> u1 <> u2 ->
+  explicit_source st k n u1 -> explicit_source st k n u2 ->
+  (forall t, In t (triggers (st_c st)) -> flow_known_now st (fst (t_flow t)) = true) ->
+  validate st = Err EConflict.
+Proof.
+  intros T1 T2 Hne S1 S2 Hk. apply source_eq in S1, S2. rewrite validate_eq.
+  apply (conflict_exact_S R Rc _ _ _ _ _ T1 T2 Hne S1 S2 Hk).
+Qed.
+
+(* validate never fails with a KeyError in the assign loops *)
+Lemma validate_errors st e : validate st = Err e -> e = EConflict \/ e = EUnknownFlow.
+Proof. rewrite validate_eq. apply validate_err_kinds. Qed.
+
+(* ---- 4 ---- *)
+Lemma validate_idempotent st st' : dict_wf (st_d st) -> validate st = Ok st' -> validate st' = Ok st'.
+Proof. rewrite !validate_eq. apply validate_idempotent_S. Qed.
+
+Lemma dict_wf_validate' st st' : dict_wf (st_d st) -> validate st = Ok st' -> dict_wf (st_d st').
+Proof. rewrite validate_eq. apply dict_wf_validate. Qed.
+
+Lemma render_n_fixed k : forall st st', dict_wf (st_d st) -> validate st = Ok st' -> render_n (S k) st = Ok st'.
+Proof.
+  induction k as [|k IH]; intros st st' Hwf H.
+  - cbn. rewrite H. reflexivity.
+  - change (render_n (S (S k)) st) with (match validate st with Ok s => render_n (S k) s | Err e => Err e end).
+    rewrite H. apply IH; [apply (dict_wf_validate' _ _ Hwf H)|apply (validate_idempotent _ _ Hwf H)].
+Qed.
+
+(* ---- 5 ---- *)
+Lemma trigger_unknown_flow_rejected st t : In t (triggers (st_c st)) -> flow_known_now st (fst (t_flow t)) = false ->
+  validate st = Err EUnknownFlow \/ validate st = Err EConflict.
+Proof.
+  intros Hin Hk. rewrite validate_eq.
+  destruct (unknown_trigger_rejected_S R Rc _ _ Hin Hk) as (e & He & [->| ->]); auto.
+Qed.
+
+Lemma trigger_error_only_unknown st : validate st = Err EUnknownFlow ->
+  exists t, In t (triggers (st_c st)) /\ flow_known_now st (fst (t_flow t)) = false.
+Proof. rewrite validate_eq. apply unknown_flow_error_S. Qed.
+
+Lemma trigger_flow_resolved st st' t : dict_wf (st_d st) -> flows_have_uuid (st_c st) ->
+  validate st = Ok st' -> In t (triggers (st_c st')) ->
+  truthy (snd (t_flow t)) = true
+  /\ dget (fd (st_d st')) (fst (t_flow t)) = Some (snd (t_flow t))
+  /\ forall u, In (KFlow, (fst (t_flow t), u)) (occs (st_c st')) -> u = snd (t_flow t).
+Proof.
+  intros Hwf Hfl H Hin. rewrite validate_eq in H.
+  destruct (trigger_flow_resolved_S R Rc _ _ _ Hwf Hfl H Hin) as (A & B & C).
+  split; [exact A|]. split; [exact B|]. intros u Hu. rewrite occs_eq in Hu. apply C, Hu.
+Qed.
+
+(* ---- histories ---- *)
+Definition op_ok (o : op) : Prop := match o with OAddFlow f => truthy (f_uuid f) = true | _ => True end.
+
+Definition hist_inv (st : state) : Prop := dict_wf (st_d st) /\ flows_have_uuid (st_c st).
+
+Lemma hist_inv_init c : flows_have_uuid c -> hist_inv (init c).
+Proof. intros H. split; [apply dict_wf_empty|exact H]. Qed.
+
+Lemma record_k_wf k ud n u ud' : dict_wf ud -> record_k k ud n u = Ok ud' -> dict_wf ud'.
+Proof. intros Hwf H k'. apply (ext_nodup _ _ (record_k_ext _ _ _ _ _ H)), Hwf. Qed.
+
+Lemma step_hist_inv st o st' : hist_inv st -> op_ok o -> step st o = Ok st' -> hist_inv st'.
+Proof.
+  intros [Hwf Hfl] Hok H. destruct o as [n u|n u|f|x|x|]; cbn in H.
+  - destruct (record_k KGroup (st_d st) n u) as [ud|e] eqn:E; [|discriminate]. injection H as <-.
+    split; [apply (record_k_wf _ _ _ _ _ Hwf E)|exact Hfl].
+  - destruct (record_k KFlow (st_d st) n u) as [ud|e] eqn:E; [|discriminate]. injection H as <-.
+    split; [apply (record_k_wf _ _ _ _ _ Hwf E)|exact Hfl].
+  - destruct (record_k KFlow (st_d st) (f_name f) (f_uuid f)) as [ud|e] eqn:E; [|discriminate]. injection H as <-.
+    split; [apply (record_k_wf _ _ _ _ _ Hwf E)|]. intros f' Hin. cbn [st_c flows] in Hin.
+    apply in_app_iff in Hin as [Hin|[<-|[]]]; [apply Hfl, Hin|exact Hok].
+  - injection H as <-. split; [exact Hwf|exact Hfl].
+  - injection H as <-. split; [exact Hwf|exact Hfl].
+  - split; [apply (dict_wf_validate' _ _ Hwf H)|].
+    rewrite validate_eq in H. apply (flows_have_uuid_validate R Rc _ _ H Hfl).
+Qed.
+
+(* a truthy binding of the dictionary is permanent: no operation ever changes it *)
+Lemma step_binding_permanent st o st' k n u : step st o = Ok st' ->
+  dget (sel k (st_d st)) n = Some u -> truthy u = true -> dget (sel k (st_d st')) n = Some u.
+Proof.
+  intros H Hg Ht. destruct o as [n0 u0|n0 u0|f|x|x|]; cbn in H.
+  - destruct (record_k KGroup (st_d st) n0 u0) as [ud|e] eqn:E; [|discriminate]. injection H as <-.
+    apply (ext_bound _ _ (record_k_ext _ _ _ _ _ E)); assumption.
+  - destruct (record_k KFlow (st_d st) n0 u0) as [ud|e] eqn:E; [|discriminate]. injection H as <-.
+    apply (ext_bound _ _ (record_k_ext _ _ _ _ _ E)); assumption.
+  - destruct (record_k KFlow (st_d st) (f_name f) (f_uuid f)) as [ud|e] eqn:E; [|discriminate]. injection H as <-.
+    apply (ext_bound _ _ (record_k_ext _ _ _ _ _ E)); assumption.
+  - injection H as <-. exact Hg.
+  - injection H as <-. exact Hg.
+  - rewrite validate_eq in H. apply (validate_binds R Rc _ _ _ _ _ H Ht). right. exact Hg.
+Qed.
+
+Lemma run_hist_inv ops : forall st st', hist_inv st -> Forall op_ok ops -> run ops st = Ok st' -> hist_inv st'.
+Proof.
+  unfold run. induction ops as [|o r IH]; intros st st' Hi Hok H; cbn in H.
+  - injection H as <-. exact Hi.
+  - inversion Hok as [|x l Ho Hr]; subst. destruct (step st o) as [st1|e] eqn:E; [|discriminate].
+    apply (IH st1 st' (step_hist_inv _ _ _ Hi Ho E) Hr H).
+Qed.
+
+Lemma run_binding_permanent ops : forall st st' k n u, run ops st = Ok st' ->
+  dget (sel k (st_d st)) n = Some u -> truthy u = true -> dget (sel k (st_d st')) n = Some u.
+Proof.
+  unfold run. induction ops as [|o r IH]; intros st st' k n u H Hg Ht; cbn in H.
+  - injection H as <-. exact Hg.
+  - destruct (step st o) as [st1|e] eqn:E; [|discriminate].
+    apply (IH st1 st' k n u H); [apply (step_binding_permanent _ _ _ _ _ _ E Hg Ht)|exact Ht].
+Qed.
+
+(* every render of a history is consistent in itself, and any two renders of the same
+   history agree on every (kind, name): the whole [run_trace] the correspondence compares *)
+Lemma run_trace_consistent ops : forall st i snaps stop, hist_inv st -> Forall op_ok ops ->
+  run_trace ops st i = (snaps, stop) ->
+  (forall s k n u, In s snaps -> In (k, (n, u)) (fst s) ->
+     truthy u = true /\ forall r, dget (sel k (st_d st)) n = Some r -> truthy r = true -> r = u)
+  /\ (forall s1 s2 k n u1 u2, In s1 snaps -> In s2 snaps ->
+        In (k, (n, u1)) (fst s1) -> In (k, (n, u2)) (fst s2) -> u1 = u2).
+Proof.
+  induction ops as [|o r IH]; intros st i snaps stop Hi Hok H; cbn [run_trace] in H.
+  - injection H as <- <-. split; intros; contradiction.
+  - inversion Hok as [|x l Ho Hr]; subst.
+    destruct (step st o) as [st1|e] eqn:E.
+    2:{ injection H as <- <-. split; intros; contradiction. }
+    destruct (run_trace r st1 (S i)) as [snaps_r stop_r] eqn:Er.
+    pose proof (step_hist_inv _ _ _ Hi Ho E) as Hi1.
+    destruct (IH st1 (S i) snaps_r stop_r Hi1 Hr Er) as [IH1 IH2].
+    assert (Hperm : forall k n r0, dget (sel k (st_d st)) n = Some r0 -> truthy r0 = true ->
+                                   dget (sel k (st_d st1)) n = Some r0).
+    { intros k n r0. apply (step_binding_permanent _ _ _ _ _ _ E). }
+    assert (Hold : forall s k n u, In s snaps_r -> In (k, (n, u)) (fst s) ->
+              truthy u = true /\ forall r0, dget (sel k (st_d st)) n = Some r0 -> truthy r0 = true -> r0 = u).
+    { intros s k n u Hs Hin. destruct (IH1 s k n u Hs Hin) as [A B]. split; [exact A|].
+      intros r0 Hg Ht. apply B; [apply Hperm; assumption|exact Ht]. }
+    assert (Hsn : snaps = snaps_r \/ (o = ORender /\ snaps = (occs (st_c st1), vis_of (st_c st1)) :: snaps_r)).
+    { destruct o; injection H as <- <-; auto. }
+    destruct Hsn as [->|[-> ->]]; [split; [exact Hold|exact IH2]|].
+    cbn [step] in E. destruct Hi as [Hwf Hfl].
+    destruct (one_name_one_uuid _ _ Hwf Hfl E) as (C1 & C2 & _).
+    split.
+    + intros s k n u [<-|Hs] Hin; [|apply (Hold s k n u Hs Hin)].
+      cbn [fst] in Hin. destruct (C1 _ _ _ Hin) as [A B]. split; [exact A|].
+      intros r0 Hg Ht. apply Hperm in Hg; [|exact Ht]. congruence.
+    + intros s1 s2 k n u1 u2 [<-|H1] [<-|H2] I1 I2; cbn [fst] in *.
+      * apply (C2 _ _ _ _ I1 I2).
+      * destruct (C1 _ _ _ I1) as [A B]. destruct (IH1 s2 k n u2 H2 I2) as [_ D]. apply (D u1 B A).
+      * destruct (C1 _ _ _ I2) as [A B]. destruct (IH1 s1 k n u1 H1 I1) as [_ D]. symmetry. apply (D u2 B A).
+      * apply (IH2 s1 s2 k n u1 u2 H1 H2 I1 I2).
+Qed.
